@@ -449,6 +449,21 @@ def fam_nc(tier, seed):
             afs.append(uint_field("x", [(0, 7), (16, 23)], array=arr(2, 8)))                   # u16 native elements
         afs = [f for f in afs if _array_fits(f, base)]
         cases += emit("na%d" % base, base, afs)
+    # byte permutations: every order of the four bytes of a u32, and a few orders of the bytes of u64 / u128 (whole-base native fields from aligned byte ranges)
+    perm_fields = [uint_field("x", [(8 * b, 8 * b + 7) for b in perm]) for perm in itertools.permutations(range(4))]
+    cases += emit("nb32", 32, perm_fields, per=8)
+    prng = random.Random(4242)
+    for base in (64, 128):
+        nb = base // 8
+        fs = [uint_field("x", [(8 * b, 8 * b + 7) for b in reversed(range(nb))])]
+        for _ in range(7):
+            perm = list(range(nb))
+            prng.shuffle(perm)
+            fs.append(uint_field("x", [(8 * b, 8 * b + 7) for b in perm]))
+            mid = list(range(1, nb - 1))
+            prng.shuffle(mid)
+            fs.append(uint_field("x", [(8 * b, 8 * b + 7) for b in [nb - 1] + mid + [0]]))
+        cases += emit("nb%d" % base, base, fs, per=8)
     # twins inside one struct (and therefore one macro process): identical range lists / ranges that differ in exactly one
     # other attribute, declared next to each other in both orders -- state carried from one field (or one invocation) to
     # the next shows up as a disagreement with the reference register
@@ -592,6 +607,20 @@ def fam_enum(tier, seed):
     add(make_enum("E", 6, [0, 0o17, 0o77, 8], "false", radix="oct"), tags=["nonexh", "octal"])
     add(make_enum("E", 3, list(range(8)), "true", radix="oct"), tags=["exhaustive", "octal"])
     add(make_enum("E", 20, [1_000, 1_000_000, 0], "false", radix="under"), tags=["nonexh", "underscore"])
+    # an explicit repr narrower than the storage type (the discriminants fit it)
+    for bits, rp, ds in ((12, "u8", [0, 3, 255]), (16, "u8", [1, 0x7f]), (20, "u16", [0, 0xffff, 5]), (40, "u32", [0, 3, 0xffff_ffff]), (9, "u8", [0, 200]), (64, "u16", [7, 9])):
+        e_ = make_enum("E", bits, ds, "false")
+        e_["repr"] = rp
+        add(e_, tags=["nonexh", "narrow-repr"])
+    # conditional enums with many cfg alternatives for one value (more than 2 * 2^N variants listed)
+    add(make_enum("E", 1, [0, 1, 1, 1, 1], "conditional", cfg=[None, False, False, True, False], names=["Z", "A1", "A2", "A3", "A4"]), tags=["conditional", "many-alternatives"])
+    add(make_enum("E", 2, [0, 1, 1, 1, 2, 2, 2, 3, 3], "conditional", cfg=[None, False, True, False, False, False, True, True, False], names=["Z", "A1", "A2", "A3", "B1", "B2", "B3", "C1", "C2"]), tags=["conditional", "many-alternatives"])
+    # harmless cfg_attr attributes on variants are not cfg gating
+    for exh, ds in (("true", [0, 1, 2, 3]), ("false", [0, 2]), (None, [1, 3])):
+        e_ = make_enum("E", 2, ds, exh)
+        e_["variants"][0] = dict(e_["variants"][0], pre_attrs=['#[cfg_attr(all(), doc = "documented when the predicate holds")]'])
+        e_["variants"][-1] = dict(e_["variants"][-1], pre_attrs=["#[cfg_attr(any(), deprecated)]", "#[allow(dead_code)]"])
+        add(e_, tags=["cfg_attr"])
     # 2^N - 1 variants (one missing), N <= 8
     for bits in range(1, 9):
         space = 1 << bits
@@ -910,6 +939,13 @@ def handwritten_mixed():
     out.append(bitfield_case("mh_self9", "mixed", 16, [uint_field("a", [(0, 7), (4, 11)]), uint_field("other", [(12, 15)])], name="Reg", tags=["self-overlap"]))
     out.append(bitfield_case("mh_self10", "mixed", 8, [uint_field("a", [(0, 3), (2, 5)]), uint_field("other", [(6, 7)])], name="Reg", tags=["self-overlap"]))
     out.append(bitfield_case("mh_self11", "mixed", 64, [uint_field("a", [(8, 39), (24, 55)]), uint_field("lo", [(0, 7)]), uint_field("hi", [(56, 63)])], default=default_spec(0), name="Reg", tags=["self-overlap"]))
+    # identifiers: leading underscore, keyword + underscore, single letters, digits inside
+    out.append(bitfield_case("mh_names", "mixed", 32, [uint_field("_reserved", [(0, 3)]), uint_field("type_", [(4, 7)]), bool_field("loop_", 8), uint_field("_", [(9, 10)], access="r") if False else uint_field("__x", [(9, 10)], access="r"),
+                                                        uint_field("self_", [(11, 12)], access="w"), sint_field("r#fn", [(16, 23)]), uint_field("x9_y", [(24, 27)], array=None), bool_field("_flag_", 31)],
+                             default=default_spec(0xb00b, text="0xb00b"), name="Reg"))
+    # hexadecimal / octal / binary default literals whose digits look like radix markers
+    for k, (base, text) in enumerate(((8, "0xb"), (16, "0xb0"), (32, "0xbb00b"), (24, "0xb0_0b00"), (64, "0xb000_0000_0000_0000"), (16, "0xe"), (32, "0xe0b"), (8, "0o17"), (8, "0b1011"), (16, "0b0"), (128, "0x0b"), (9, "0x00b"))):
+        out.append(bitfield_case("mh_hexdef%d" % k, "mixed", base, [uint_field("a", [(0, 3)])], default=default_spec(int(text.replace("_", ""), 0), text=text, syntax="=:"[k % 2]), name="Reg"))
     # decimal literals with leading zeros are decimal (010 == 10) in positions, strides and defaults
     f1 = dict(uint_field("a", [(10, 17)]), attr_text="#[bits(010..=017, rw)]")
     f2 = dict(bool_field("b", 20), attr_text="#[bit(020, rw)]")
@@ -1040,6 +1076,9 @@ def fam_dbgf(tier, seed):
         n += 1
     cases.append(bitfield_case("dw_%04d" % n, "dbgf", 32, [uint_field("r#ref", [(0, 3)]), bool_field("r#return", 4), uint_field("r#r", [(5, 6)]), uint_field("rr", [(7, 8)]), uint_field("r#use", [(9, 12)]),
                                                           uint_field("r#fn", [(13, 14)]), uint_field("raw", [(15, 16)], access="r")], debug=True, name="Keywords2"))
+    n += 1
+    cases.append(bitfield_case("dw_%04d" % n, "dbgf", 32, [uint_field("type_", [(0, 3)]), bool_field("loop_", 4), uint_field("_reserved", [(5, 6)], access="r"), uint_field("self_", [(7, 8)]), uint_field("__", [(9, 12)]),
+                                                          uint_field("mode_", [(13, 14)]), uint_field("_", [(15, 16)]) if False else uint_field("a_", [(15, 16)])], debug=True, name="Names"))
     n += 1
     # aliases: fields with exactly the same bits and type, fields hidden from the documentation, attribute-style docs
     al = [uint_field("status", [(0, 7)], access="r"), uint_field("command", [(0, 7)]), uint_field("data", [(8, 15)]), uint_field("data_again", [(8, 15)], access="r"),
